@@ -25,6 +25,35 @@ pub fn roundtrip(spec: &FileSpec) -> Result<usize, (String, String)> {
     if reader.compression_type() != codec_of(spec.cfg.codec) {
         return Err(("codec".into(), format!("compression_type() = {:?}, configured codec id {}", reader.compression_type(), spec.cfg.codec)));
     }
+    // the same facts through the other accessors: the cursor (Deref) and the reader it hands back
+    {
+        let want = (entries.len() as u64, codec_of(spec.cfg.codec));
+        let c = reader.into_cursor().map_err(|e| ("open".to_string(), format!("into_cursor: {e}")))?;
+        if (c.len(), c.compression_type()) != want {
+            return Err(("len".into(), format!("the cursor reports len {} codec {:?}, expected {:?}", c.len(), c.compression_type(), want)));
+        }
+        let r = c.into_reader();
+        if (r.len(), r.compression_type()) != want {
+            return Err(("len".into(), format!("the reader returned by into_reader reports len {} codec {:?}, expected {:?}", r.len(), r.compression_type(), want)));
+        }
+    }
+    // the other ways of building and finishing a writer produce the same file
+    {
+        let alt = crate::common::guarded(|| -> Result<Vec<u8>, String> {
+            let mut sink = Vec::new();
+            let mut w = crate::common::writer_builder(&spec.cfg).build(&mut sink);
+            for (k, v) in &entries {
+                w.insert(k, v).map_err(|e| e.to_string())?;
+            }
+            w.finish().map_err(|e| e.to_string())?;
+            Ok(sink)
+        })
+        .map_err(|p| ("write".to_string(), format!("build(&mut Vec) + finish(): {p}")))?
+        .map_err(|e| ("write".to_string(), format!("build(&mut Vec) + finish(): {e}")))?;
+        if alt != bytes {
+            return Err(("write".into(), "WriterBuilder::build(&mut Vec) + finish() produces different bytes than memory() + into_inner()".into()));
+        }
+    }
     let model = Model::new(entries);
     // the statement speaks of the forward and the backward scan of the finished file: fresh
     // cursors only (reset/clone behaviour belongs to C02/C03)
